@@ -34,11 +34,12 @@ LEVEL_TEXT = (
 LEVEL_NOTE = (
     "Trusted: the AES block permutation, SHA-256, PBKDF2-HMAC and X25519 of `cryptography`/hashlib; vlib/refcrypto_ip.py, "
     "re-validated at the start of every run against the AN159 vectors recorded in the repository's tests (failure => inconclusive). "
+    "Assumption: passwords are ISO 8859-1 strings (ETS keyring passwords; xknx encodes both the user password and the device authentication password with latin-1), so the "
+    "reference derives both keys from the ISO 8859-1 octets; passwords with characters from U+00A0..U+00FF are part of the handshake cases and both derivations are compared with the reference. "
     "Judged: byte equality with the reference, identity of the round trip, refusal of every changed frame / key / session id. "
     "'Refused' means: the frame does not come out of decrypt_frame (CouldNotParseKNXIP family from parsing or validation, or it "
     "is no longer a SecureWrapper at all); other exception types on tampered input are recorded, not judged. Not judged: inner "
-    "services that the layer refuses on purpose (nested wrapper, remote diagnosis/configuration), passwords outside printable "
-    "ASCII, payloads above 4080 octets, a session without device authentication code (SessionResponse MAC is then not checked by design)."
+    "services that the layer refuses on purpose (nested wrapper, remote diagnosis/configuration), payloads above 4080 octets, passwords with characters above U+00FF, a session without device authentication code (SessionResponse MAC is then not checked by design)."
 )
 SHARDS = {"quick": 1, "thorough": 8}
 TIMEOUT = {"quick": 120, "thorough": 1200}
@@ -378,8 +379,17 @@ def part_real_transports(ctx):
 PRINTABLE = "".join(chr(c) for c in range(0x20, 0x7F))
 
 
-def password(rng):
-    return "".join(rng.choice(PRINTABLE) for _ in range(rng.choice((1, 5, 8, 13, 20))))
+LATIN1_HIGH = "".join(chr(c) for c in range(0xA0, 0x100))
+
+
+def password(rng, high=False):
+    """ETS passwords are ISO 8859-1 strings; `high` forces characters from U+00A0..U+00FF."""
+    n = rng.choice((1, 5, 8, 13, 20))
+    chars = [rng.choice(PRINTABLE) for _ in range(n)]
+    if high:
+        for i in rng.sample(range(n), max(1, n // 2)):
+            chars[i] = rng.choice(LATIN1_HIGH)
+    return "".join(chars)
 
 
 def handshake_case(ctx, session, user_id, user_key, dev_key, sid, client_raw, server_raw, full):
@@ -483,12 +493,27 @@ def part_handshake(ctx):
     pairs = ctx.scale(4, 9)
     per_pair = ctx.scale(5, 20)
     for p in range(pairs):
-        user_pw, dev_pw = password(rng), password(rng)
+        # pair 0: printable ASCII; pair 1: one ISO 8859-1 string used for both derivations; others: ISO 8859-1 / mixed
+        high = p % 4 != 0
+        user_pw = password(rng, high)
+        dev_pw = user_pw if p % 4 == 1 else password(rng, high and p % 4 != 3)
         user_id = rng.choice((1, 2, 3, 0x7F, rng.randrange(1, 128)))
         session = SecureSession(remote_addr=("10.0.0.2", 3671), user_id=user_id, user_password=user_pw, device_authentication_password=dev_pw)
         ctx.count("pbkdf2_derivations_by_xknx", 2)
         user_key = ref.user_password_key(user_pw)
         dev_key = ref.device_authentication_key(dev_pw)
+        # both derivations against the reference (PBKDF2-HMAC-SHA256 over the ISO 8859-1 octets of the password, the two KNX salts)
+        for what, got, want, pw in (("user-password", session._user_password, user_key, user_pw), ("device-authentication", session._device_authentication_code, dev_key, dev_pw)):
+            ctx.ev()
+            kind = "latin1" if any(ord(c) > 0x7F for c in pw) else "ascii"
+            ctx.count(f"key_derivations_compared_{kind}")
+            if got != want:
+                ctx.violation(
+                    f"{what}-key-differs-from-reference-{kind}-password", {"part": "key-derivation", "which": what, "password": pw, "got": got, "reference": want},
+                    f"the {what} key derived from a {kind} password differs from PBKDF2 over its ISO 8859-1 octets",
+                )
+        if dev_pw == user_pw:
+            ctx.count("same_string_through_both_derivations")
         for h in range(per_pair):
             sid = rng.choice((1, 2, 0xFFFF, rng.randrange(1, 65536)))
             handshake_case(ctx, session, user_id, user_key, dev_key, sid, rng.randbytes(32), rng.randbytes(32), full=h < ctx.scale(1, 3))
@@ -611,7 +636,7 @@ def run(ctx):
         "real_secure-group_wrappers_verified", "real_secure-group_peer_roundtrips", "secure_group_runs_with_varying_tags",
     )
     if ctx.shard == 0:
-        ctx.require("real_secure-session_wrappers_verified", "handshakes", "session_keys_compared", "session_response_flip_neighbourhoods", "wire_connects", "forged_session_response_refused_mac")
+        ctx.require("key_derivations_compared_latin1", "key_derivations_compared_ascii", "same_string_through_both_derivations", "real_secure-session_wrappers_verified", "handshakes", "session_keys_compared", "session_response_flip_neighbourhoods", "wire_connects", "forged_session_response_refused_mac")
     part_wrap(ctx)
     part_real_transports(ctx)
     part_handshake(ctx)
